@@ -184,3 +184,9 @@ add("C07", "model_checking",
     "test (smoke.main.execute = front end + schema inference + C# type and verification generation) and by python.lib.generate_verification, the source lambda is evaluated by CPython on an instance whose property "
     "values are all symbolic and type-conforming (None exactly where Optional): TypeError / AttributeError is a violation, IndexError is admitted.",
     "Soundness direction only. 'Accepted' is read as smoke + Python generation because the front end proper runs no type inference (see DESIGN.md). Five open known findings (classes of ill-typed invariants which are accepted).")
+
+add("C01", "model_checking",
+    "solver-enumerated families (CrossHair/z3 over small integer genomes) of meta-model texts around every construct with positional/keyword arguments, each run through the real run.load_model",
+    "Small symbolic integers select the construct (constant_set / constant_* / @invariant / class decorators / type annotations / constructor shapes / base-class lists / verification-function bodies), the number of "
+    "arguments and each argument form; the decoded text goes through the REAL run.load_model, which must return a symbol table or a non-empty error report and never raise.",
+    "Finite families: the solver acts as an exhaustive enumerator and the front end runs concretely (stated honestly in DESIGN.md). Texts outside the families, and symbolic pattern strings (C16), are outside.")
